@@ -109,6 +109,29 @@ def run(ctx):
                 report('same-dimension-raises', 'conversion %s -> %s (dimension %s) raised %s: %s' % (a.code, b.code, dim, type(e).__name__, e),
                        dict(a=a.code, b=b.code))
                 continue
+            # long arrays (a 20 001-frame channel, a 6000 x 5 frame matrix): every element converts as it does in a short array
+            if npairs % 23 == 0:
+                try:
+                    big = np.resize(arr, 20001)
+                    short = np.asarray(OU.convert_array(arr.copy(), a, b), dtype=float)
+                    for nm_, gb in (('convert_array', np.asarray(OU.convert_array(big.copy(), a, b), dtype=float)),
+                                    ('convert_array on a 6667 x 3 matrix', np.asarray(OU.convert_array(big.copy().reshape(6667, 3), a, b), dtype=float).reshape(-1))):
+                        want_b = np.resize(short, 20001)
+                        neq = np.nonzero(~((gb == want_b) | (np.isnan(gb) & np.isnan(want_b))))[0]
+                        if len(neq):
+                            report('value', '%s of 20001 values %s -> %s: element %d = %r, the same value in a short array converts to %r' % (
+                                nm_, a.code, b.code, int(neq[0]), float(gb[neq[0]]), float(want_b[neq[0]])), dict(a=a.code, b=b.code, fn='convert_array', size=20001))
+                    bi = big.copy()
+                    OU.convert_array_inplace(bi, a, b)
+                    si = arr.copy()
+                    OU.convert_array_inplace(si, a, b)
+                    wi = np.resize(si, 20001)
+                    neq = np.nonzero(~((bi == wi) | (np.isnan(bi) & np.isnan(wi))))[0]
+                    if len(neq):
+                        report('value', 'convert_array_inplace of 20001 values %s -> %s: element %d = %r, in a short array %r' % (
+                            a.code, b.code, int(neq[0]), float(bi[neq[0]]), float(wi[neq[0]])), dict(a=a.code, b=b.code, fn='convert_array_inplace', size=20001))
+                except Exception as e:
+                    report('same-dimension-raises', 'conversion of a long array %s -> %s raised %s: %s' % (a.code, b.code, type(e).__name__, e), dict(a=a.code, b=b.code))
             # integer arrays (an int32 milliseconds channel, int16 whole degrees) convert to the same numbers as their elements do
             if npairs % 5 == 0:
                 ints = [0, 1, 250, 1500, -40, 32767]
